@@ -15,6 +15,7 @@ import (
 //
 //verif:stub (*internal/cache.Cache).Get = c13pGet
 //verif:stub (*internal/cache.Cache).Len = c13pLen
+//verif:stub (*internal/cache.Cache).CompareAndDelete = c13pCAD
 //verif:stub github.com/miekg/dns.escapeByte = c13pEscape
 var c13pHeld *failureEntry
 
@@ -26,6 +27,17 @@ func c13pGet(c *internalcache.Cache, key uint64) (any, bool) {
 }
 
 func c13pLen(c *internalcache.Cache) int { return 1 }
+
+var c13pDeleted int
+
+func c13pCAD(c *internalcache.Cache, key uint64, old any) bool {
+	if c13pHeld != nil && old == any(c13pHeld) {
+		c13pHeld = nil
+		c13pDeleted++
+		return true
+	}
+	return false
+}
 
 func c13pEscape(b byte) string {
 	return string([]byte{'\\', '0' + b/100, '0' + b/10%10, '0' + b%10})
@@ -192,5 +204,56 @@ func VerifC13_LookupWirePartition() {
 		vAssert("wire-scoped-failure-never-served-on-the-byte-path", !scoped)
 		vAssert("wire-question-hit-is-the-same-question", hit.Kind == FailureKindQuestion && len(el) == len(ql) && c13pSuffix(el, ql) &&
 			e.question.Question.Qtype == qtype && e.question.Question.Qclass == qclass && e.question.CD == cd)
+	}
+}
+
+// VerifC13_ResetOnlyWhatRecovered: a useful answer clears the failure history
+// it disproves - that very question (same name, type, class, CD, audience) and
+// the zone failures of its ancestors in the same class - and, through a
+// colliding key, nothing else.
+//
+//verif:entry tier=thorough
+//verif:expect reset-clears-only-the-recovered-question reset-clears-only-ancestor-zones-of-the-same-class recovered-question-history-is-cleared
+//verif:bound as VerifC13_LookupPartition: one stored entry (question or zone failure) that every key collides with; the recovering question of shape [2,1] or [1,1] (thorough tier only: it would take the quick tier to three quarters of its budget); all qtype/qclass/CD
+//verif:outside more than one stored entry per key (the table is a single always-colliding cell)
+func VerifC13_ResetOnlyWhatRecovered() {
+	c := &FailureCache{entries: new(internalcache.Cache), initialTTL: 5e9, maxTTL: 3e11}
+	clock := vNow()
+	c.now = func() time.Time { return clock }
+	nq, ns := 1, 2
+	if vTier() > 0 {
+		// all 6 x 4 shapes exceed the thorough budget; one more of each
+		nq, ns = 2, 3
+	}
+	ql, qname := c13pName("q", c13pShapes[vChoice("q.shape", nq)])
+	key := FailureQuestionKey{Question: dns.Question{Name: qname, Qtype: vU16("q.qtype"), Qclass: vU16("q.qclass")}, CD: vBool("q.cd")}
+	e := &failureEntry{streak: 3, retryAfter: vTime("retryAfter")}
+	var el [][]byte
+	isZone := vChoice("stored.kind", 2) == 1
+	if isZone {
+		var zname string
+		el, zname = c13pName("z", c13pStored[vChoice("z.shape", ns)])
+		e.kind = FailureKindZone
+		e.zone = normalizeFailureZoneKey(FailureZoneKey{Zone: zname, Qclass: vU16("z.qclass")})
+	} else {
+		var sname string
+		el, sname = c13pName("s", c13pShapes[vChoice("s.shape", ns)])
+		e.kind = FailureKindQuestion
+		e.question = normalizeFailureQuestionKey(FailureQuestionKey{Question: dns.Question{Name: sname, Qtype: vU16("s.qtype"), Qclass: vU16("s.qclass")}, CD: vBool("s.cd")})
+	}
+	c13pHeld, c13pDeleted = e, 0
+	removed := c.ResetMatching(key)
+	if c13pDeleted == 0 {
+		if !isZone && len(el) == len(ql) && c13pSuffix(el, ql) && e.question.Question.Qtype == key.Question.Qtype && e.question.Question.Qclass == key.Question.Qclass && e.question.CD == key.CD {
+			vAssert("recovered-question-history-is-cleared", false)
+		}
+		return
+	}
+	vAssume(removed >= 1)
+	if isZone {
+		vAssert("reset-clears-only-ancestor-zones-of-the-same-class", c13pSuffix(el, ql) && e.zone.Qclass == key.Question.Qclass)
+	} else {
+		vAssert("reset-clears-only-the-recovered-question", len(el) == len(ql) && c13pSuffix(el, ql) && e.question.Question.Qtype == key.Question.Qtype && e.question.Question.Qclass == key.Question.Qclass && e.question.CD == key.CD)
+		vReach("recovered-question-history-is-cleared")
 	}
 }
